@@ -333,6 +333,23 @@ fn check_hostile(s: &str, out: &mut Out) -> Result<(), (String, String)> {
     let base = alloc_track::reset_peak();
     let res = catch_unwind(AssertUnwindSafe(|| Machine::from_str(s)));
     let peak = alloc_track::peak().saturating_sub(base);
+    // the judgement on a string must not depend on what was parsed before: parse it again at once
+    let again = catch_unwind(AssertUnwindSafe(|| Machine::from_str(s)));
+    match (&res, &again) {
+        (Ok(Err(_)), Ok(Ok(m2))) => {
+            return viol(
+                "judgement-changes-on-reparse",
+                format!("from_str rejected the string, then accepted the same string on the next call (machine valid: {})", m2.validate().is_ok()),
+            );
+        }
+        (Ok(Ok(_)), Ok(Err(e))) => return viol("judgement-changes-on-reparse", format!("from_str accepted the string, then rejected it on the next call: {e}")),
+        (Ok(Ok(a)), Ok(Ok(b))) => {
+            if b.validate().is_err() || a.serialize() != b.serialize() {
+                return viol("judgement-changes-on-reparse", "two consecutive parses of one string returned different machines".into());
+            }
+        }
+        _ => {}
+    }
     match res {
         Err(_) => {
             let (msg, loc) = take_panic();
@@ -362,6 +379,11 @@ fn check_hostile(s: &str, out: &mut Out) -> Result<(), (String, String)> {
 
 fn check_v1(s: &str, out: &mut Out) -> Result<(), (String, String)> {
     let res = catch_unwind(AssertUnwindSafe(|| parse_v1_machine(s)));
+    if let (Ok(a), Ok(b)) = (&res, &catch_unwind(AssertUnwindSafe(|| parse_v1_machine(s)))) {
+        if a.is_ok() != b.is_ok() || b.as_ref().map(|m| m.validate().is_err()).unwrap_or(false) {
+            return viol("v1-judgement-changes-on-reparse", "parse_v1_machine judged the same string differently on two consecutive calls".into());
+        }
+    }
     match res {
         Err(_) => {
             let (msg, loc) = take_panic();
